@@ -18,11 +18,18 @@ FAMILY_ALPHABET = "abcdefghijklmnopqrstuvwxyzABCDEFGHIJKLMNOPQRSTUVWXYZ012345678
 
 @st.composite
 def render_case(draw, max_obj=8, max_sp=6, max_fam=4, perturb_params=True, backslash_names=False, nested_colours=False,
-                label_kinds=("none", "ordered", "unordered"), widths=False):
+                label_kinds=("none", "ordered", "unordered"), widths=False, min_sp=1, min_obj=1, concentrate=False, mapping_bias=None,
+                sparse_sizes=False):
     alphabet = NAME_WITH_BACKSLASH if backslash_names else gen.NAME_ALPHABET
     case = draw(gen.drawn_reconciliation(max_obj=max_obj, max_sp=max_sp, max_fam=max_fam, costs="default",
-                                         random_names=False, colour=False))
+                                         random_names=False, colour=False, min_sp=min_sp, min_obj=min_obj, concentrate=concentrate,
+                                         mapping_bias=mapping_bias))
     inst = Instance(case)
+    # a third of the cases are laid out after other work on the same objects (see compute): another valid mapping
+    # of the same input drawn in the other orientation, then this output itself in the other orientation
+    case["_history"] = gen.chance(draw, 1, 3)
+    if case["_history"]:
+        case["_mapping2"] = draw(gen.random_mapping(inst))
     # names: species arbitrary, object leaves <part>_<part> (the renderer splits leaf names at the last underscore)
     if backslash_names or draw(st.booleans()):
         snames = draw(gen.fresh_names(len(inst.snodes), alphabet))
@@ -45,7 +52,12 @@ def render_case(draw, max_obj=8, max_sp=6, max_fam=4, perturb_params=True, backs
     ocol = draw(gen.colours(len(inst.onodes), odds))
     case = gen.rename_case(case, omap, smap, fmap, ocol, None)
     case["_label_kind"] = draw(st.sampled_from(list(label_kinds)))
-    case["_sizes"] = [[draw(st.floats(1, 100, allow_nan=False, width=32)), draw(st.floats(1, 100, allow_nan=False, width=32))] for _ in range(24)]
+    if sparse_sizes:
+        # most boxes minimal, a few large ones (what makes one trunk much wider than its neighbours)
+        big = st.one_of(st.just(1.0), st.just(1.0), st.just(1.0), st.floats(1, 100, allow_nan=False, width=32))
+        case["_sizes"] = [[draw(big), draw(big)] for _ in range(24)]
+    else:
+        case["_sizes"] = [[draw(st.floats(1, 100, allow_nan=False, width=32)), draw(st.floats(1, 100, allow_nan=False, width=32))] for _ in range(24)]
     params = {}
     if perturb_params:
         for f in PARAM_FIELDS:
@@ -59,7 +71,7 @@ def render_case(draw, max_obj=8, max_sp=6, max_fam=4, perturb_params=True, backs
     return case
 
 
-def fresh_output(case, label_kind=None, names=None):
+def fresh_output(case, label_kind=None, names=None, shared=None):
     """A new package output object for the case (fresh trees every time:
     layout.compute adds colour features to the object tree).  If the case
     asks for it (`_unnamed`), the names of all ancestral nodes of both trees
@@ -71,12 +83,18 @@ def fresh_output(case, label_kind=None, names=None):
 
     base = {k: v for k, v in case.items() if not k.startswith("_")}
     kind = label_kind or case.get("_label_kind", "none")
-    if kind == "none":
-        inp = pkg.guarded(ReconciliationInput.from_dict, {k: v for k, v in base.items() if k != "leaf_syntenies"})
+    if shared is not None and "inp" in shared:
+        # the same input object (same tree objects) as an earlier output of this walk
+        inp, onode, snode = shared["inp"], shared["onode"], shared["snode"]
     else:
-        inp = pkg.guarded(SuperReconciliationInput.from_dict, base)
-    onode = {n.name: n for n in inp.object_tree.traverse()}
-    snode = {n.name: n for n in inp.species_lca.tree.traverse()}
+        if kind == "none":
+            inp = pkg.guarded(ReconciliationInput.from_dict, {k: v for k, v in base.items() if k != "leaf_syntenies"})
+        else:
+            inp = pkg.guarded(SuperReconciliationInput.from_dict, base)
+        onode = {n.name: n for n in inp.object_tree.traverse()}
+        snode = {n.name: n for n in inp.species_lca.tree.traverse()}
+        if shared is not None:
+            shared.update(inp=inp, onode=onode, snode=snode)
     mo = {onode[k]: snode[v] for k, v in case["_mapping"].items()}
     if names is not None:
         names.update({n: k for k, n in onode.items()})
@@ -100,15 +118,26 @@ def draw_params(case, orientation):
     return DrawParams(orientation=Orientation[orientation], **case.get("_params", {}))
 
 
-def compute(case, orientation, swap=False, label_kind=None, render=True):
+def compute(case, orientation, swap=False, label_kind=None, render=True, history=True, shared=None):
     """(output, layout, tikz code or None, params, stub)"""
     from superrec2.render import layout as layout_mod
     from superrec2.render import tikz
 
     names = {}
-    out = fresh_output(case, label_kind, names)
+    out = fresh_output(case, label_kind, names, shared)
     params = draw_params(case, orientation)
     sizes = [tuple(s) for s in case["_sizes"]]
+    if case.get("_history") and history:
+        # history: a drawing may not depend on what was drawn before from the same objects
+        other = draw_params(case, "HORIZONTAL" if orientation == "VERTICAL" else "VERTICAL")
+        with stubs.stub_tex(sizes, swap=not swap, min_leaf=other.extant_gene_diameter):
+            if case.get("_mapping2"):
+                snode = {names[n]: n for n in out.input.species_lca.tree.traverse()}
+                onode = {names[n]: n for n in out.input.object_tree.traverse()}
+                mo2 = {onode[k]: snode[v] for k, v in case["_mapping2"].items()}
+                twin = type(out)(**{**{f: getattr(out, f) for f in out.__dataclass_fields__ if not f.startswith("_")}, "object_species": mo2})
+                pkg.guarded(tikz.render, twin, pkg.guarded(layout_mod.compute, twin, other), other)
+            pkg.guarded(tikz.render, out, pkg.guarded(layout_mod.compute, out, other), other)
     with stubs.stub_tex(sizes, swap=swap, min_leaf=params.extant_gene_diameter) as stub:
         lay = pkg.guarded(layout_mod.compute, out, params)
         code = pkg.guarded(tikz.render, out, lay, params) if render else None
